@@ -37,4 +37,13 @@ def delimRun : Str → List Char → Option (List Char)
 /-- The delimiters `( ) [ ]` of the string are properly nested and all closed. -/
 def balanced (s : Str) : Bool := delimRun s [] == some []
 
+/-- `c` occurs in `s` outside every pair of delimiters: at that position the scan stack (started with `st`) is empty. -/
+def atDepth0 (c : Char) : Str → List Char → Bool
+  | [], _ => false
+  | x :: xs, st =>
+    (st.isEmpty && x == c) ||
+      (match delimStep st x with
+       | some st' => atDepth0 c xs st'
+       | none => false)
+
 end Einx.Notation
